@@ -1,6 +1,6 @@
 (* Side conditions on the schema regenerated from the source (closed by computation on the generated table). *)
 From Coq Require Import List NArith ZArith Bool QArith.
-From PV Require Import Model.ConfigDecode Gen.ConfigSchemaGen.
+From PV Require Import Model.ConfigDecode Proofs.ConfigDecodeProofs Proofs.ConfigFuelProofs Gen.ConfigSchemaGen.
 Import ListNotations.
 Local Open Scope N_scope.
 
@@ -69,6 +69,11 @@ Definition file_sink_ok (l : list entry) : bool :=
 
 Lemma gen_shorthands_ok : composite_ok gen_registry = true /\ file_sink_ok gen_registry = true.
 Proof. vm_compute. split; reflexivity. Qed.
+
+(* the registry condition of the fuel bound: component configs are structs and the fields fed by the two shorthand
+   hooks (`nested`, `path`) are not themselves a schedule / a sink, so a hook never fires on its own expansion *)
+Lemma gen_shorthand_safe : shorthand_safe gen_registry = true.
+Proof. vm_compute. reflexivity. Qed.
 
 (* the pool has the documented keys, and discard_overflow defaults to false in the decoder itself
    (the CLI pre-pass is what turns the absent key into true) *)
